@@ -44,12 +44,12 @@ ASSUMPTIONS = [
 MIN_EVENTS = {
     'quick': {'oracle_evals': 400000, 'instances': 70000, 'layout_checks': 70000, 'from_bytes_checks': 70000,
               'rebuild_checks': 55000, 'pollution_steps': 3000, 'ertm_fields': 5000, 'rfcomm_frames': 2000,
-              'sdp_elements': 3000, 'sdp_size_boundaries': 16, 'uuid_ops': 1000, 'inst_l2cap-sig': 3000, 'inst_att': 5000,
+              'sdp_elements': 3000, 'sdp_wide_elements': 400, 'sdp_size_boundaries': 16, 'uuid_ops': 1000, 'inst_l2cap-sig': 3000, 'inst_att': 5000,
               'inst_smp': 2000, 'inst_sdp-pdu': 1000, 'inst_avdtp': 6000, 'inst_avrcp-cmd': 3000, 'inst_avrcp-rsp': 3000,
               'inst_avrcp-evt': 1000, 'inst_avrcp-item': 500},
     'thorough': {'oracle_evals': 3000000, 'instances': 500000, 'layout_checks': 500000, 'from_bytes_checks': 400000,
                  'rebuild_checks': 300000, 'pollution_steps': 50000, 'ertm_fields': 33000, 'rfcomm_frames': 30000,
-                 'sdp_elements': 50000, 'sdp_size_boundaries': 100, 'uuid_ops': 15000, 'inst_l2cap-sig': 60000, 'inst_att': 100000,
+                 'sdp_elements': 50000, 'sdp_wide_elements': 6000, 'sdp_size_boundaries': 100, 'uuid_ops': 15000, 'inst_l2cap-sig': 60000, 'inst_att': 100000,
                  'inst_smp': 40000, 'inst_sdp-pdu': 20000, 'inst_avdtp': 120000, 'inst_avrcp-cmd': 60000, 'inst_avrcp-rsp': 60000,
                  'inst_avrcp-evt': 20000, 'inst_avrcp-item': 10000},
 }
@@ -1088,6 +1088,21 @@ def ev_sdp_element(ev: Ev, unit):
         e = rng.choice([('text', RU.rnd_bytes(rng, rng.choice([0, 3, 200]))), ('url', RU.gen_str(rng, 40)),
                         ('seq', [RU.de_gen(rng, 1, 2) for _ in range(rng.choice([0, 1, 3]))])])
         sdp_element(ev, e, unit, size_index=rng.choice([6, 7]), boundary=f'{e[0]}/wider-size-field')
+    elif unit == 'wide':
+        # many sibling lists (empty and not) at shallow depth: nesting bookkeeping must not accumulate over siblings
+        n = rng.choice([3, 31, 32, 33, 40, 100, 300])
+        kids = []
+        for i in range(n):
+            k = rng.choice(['empty', 'empty', 'one', 'deep'])
+            kids.append((rng.choice(['seq', 'alt']), [] if k == 'empty' else [('uint', 1, i & 0xFF)] if k == 'one'
+                         else [('seq', [('seq', [])]), ('nil',)]))
+        kids.append(('seq', [('seq', [('uint', 2, n)])]))
+        e = ('seq', kids)
+        if rng.random() < 0.5:
+            e = ('seq', [e, ('alt', [])])
+        sdp_element(ev, e, unit, boundary=f'siblings{"<=32" if n <= 32 else ">32"}')
+        r = ev.r
+        r.ev('sdp_wide_elements')
     elif unit == 'nested':
         depth = rng.choice([2, 4, 8, 16, 31])
         e = ('uint', 1, 7)
@@ -1932,7 +1947,7 @@ HAND_UNITS = {
     'l2cap-psm': (['psm'], ev_psm),
     'l2cap-pdu': (['L2CAP_PDU'], ev_l2cap_pdu),
     'unknown-code': (['l2cap-sig', 'att', 'smp'], ev_unknown_code),
-    'sdp-element': (['any', 'uint', 'sint', 'uuid', 'text', 'url', 'seq', 'alt', 'bool', 'nil', 'nested', 'nonminimal', 'int128'], ev_sdp_element),
+    'sdp-element': (['any', 'uint', 'sint', 'uuid', 'text', 'url', 'seq', 'alt', 'bool', 'nil', 'nested', 'wide', 'nonminimal', 'int128'], ev_sdp_element),
     'rfcomm-frame': (['sabm', 'ua', 'dm', 'disc', 'uih', 'uih-credit'], ev_rfcomm_frame),
     'rfcomm-mcc': (['mcc', 'pn', 'msc'], ev_rfcomm_mcc),
     'avctp': (['single'], ev_avctp),
